@@ -186,8 +186,10 @@ def untext(cps: Sequence[int]) -> str:
     return "".join(chr(c) for c in cps)
 
 
-def tag(v: Any) -> Dict[str, Any]:
+def tag(v: Any, _depth: int = 0) -> Dict[str, Any]:
     """Python JSON-like value -> tagged form shared with the specification."""
+    if _depth > 60:
+        return {"t": "foreign", "py": "cyclic-or-too-deep"}
     if v is None:
         return {"t": "null"}
     if v is True or v is False:
@@ -204,14 +206,14 @@ def tag(v: Any) -> Dict[str, Any]:
     if isinstance(v, str):
         return {"t": "str", "s": text(v)}
     if isinstance(v, (list, tuple)):
-        return {"t": "arr", "xs": [tag(x) for x in v]}
+        return {"t": "arr", "xs": [tag(x, _depth + 1) for x in v]}
     if isinstance(v, dict):
         ks, vs = [], []
         for k, x in v.items():
             if not isinstance(k, str):
                 return {"t": "foreign", "py": "key:" + type(k).__name__}
             ks.append(text(k))
-            vs.append(tag(x))
+            vs.append(tag(x, _depth + 1))
         return {"t": "obj", "ks": ks, "vs": vs}
     return {"t": "foreign", "py": type(v).__name__}
 
@@ -421,18 +423,137 @@ class Check:
 # --------------------------------------------------------------------------- parallel map
 
 
-def pmap(fn: Callable[[Any], Any], items: Sequence[Any], *, chunk: int = 500, procs: int = NCPU) -> Iterator[Any]:
-    """Order-preserving parallel map (fork), falling back to serial for small inputs."""
-    if len(items) < 2000 or procs <= 1:
-        for it in items:
-            yield fn(it)
-        return
-    import multiprocessing as mp
+class _ItemTimeout(BaseException):
+    pass
 
-    ctx = mp.get_context("fork")
-    with ctx.Pool(procs) as pool:
-        for r in pool.imap(fn, items, chunksize=chunk):
-            yield r
+
+def _alarm(*_a: Any) -> None:
+    raise _ItemTimeout()
+
+
+def _abnormal(kind: str, item: Any) -> Any:
+    """Result standing in for a replay that hung or killed its interpreter (replay functions
+    return a list of (signature, case, what))."""
+    return [(kind, {"tagged": item if not isinstance(item, tuple) else item[0]}, kind)]
+
+
+def pmap(fn: Callable[[Any], Any], items: Sequence[Any], *, chunk: int = 500, procs: int = NCPU,
+         item_timeout: int = 30) -> Iterator[Any]:
+    """Order-preserving parallel map over forked workers that survives the code under test
+    hanging (per-item alarm) or killing the interpreter (the worker is restarted after the
+    item it died on); both are reported as abnormal results, never as machinery failures."""
+    import pickle
+    import selectors
+    import signal
+    import struct
+
+    n = len(items)
+    if n == 0:
+        return
+    results: List[Any] = [None] * n
+    nshards = 1 if n < 400 else min(procs, max(1, n // 200))
+    bounds = [(i * n // nshards, (i + 1) * n // nshards) for i in range(nshards)]
+
+    def spawn(lo: int, hi: int) -> Tuple[int, int]:
+        r, w = os.pipe()
+        pid = os.fork()
+        if pid == 0:
+            try:
+                os.close(r)
+                signal.signal(signal.SIGALRM, _alarm)
+                out = os.fdopen(w, "wb")
+                for i in range(lo, hi):
+                    out.write(struct.pack("<cI", b"S", i))
+                    out.flush()
+                    signal.alarm(item_timeout)
+                    try:
+                        res = ("ok", fn(items[i]))
+                    except _ItemTimeout:
+                        res = ("timeout", None)
+                    except RecursionError:
+                        res = ("recursion", None)
+                    except BaseException as e:  # noqa: BLE001
+                        import traceback
+
+                        res = ("error", traceback.format_exc())
+                    finally:
+                        signal.alarm(0)
+                    blob = pickle.dumps(res)
+                    out.write(struct.pack("<cI", b"R", len(blob)))
+                    out.write(blob)
+                out.write(struct.pack("<cI", b"E", 0))
+                out.flush()
+            finally:
+                os._exit(0)
+        os.close(w)
+        return pid, r
+
+    sel = selectors.DefaultSelector()
+    state: Dict[int, Dict[str, Any]] = {}
+    for lo, hi in bounds:
+        if lo < hi:
+            pid, fd = spawn(lo, hi)
+            f = os.fdopen(fd, "rb")
+            state[fd] = {"pid": pid, "f": f, "cur": None, "hi": hi, "done": False}
+            sel.register(f, selectors.EVENT_READ, fd)
+
+    def read_exact(f: Any, k: int) -> bytes:
+        buf = b""
+        while len(buf) < k:
+            part = f.read(k - len(buf))
+            if not part:
+                return buf
+            buf += part
+        return buf
+
+    failure: Optional[str] = None
+    while state:
+        for key, _ in sel.select():
+            fd = key.data
+            st = state[fd]
+            f = st["f"]
+            hdr = read_exact(f, 5)
+            if len(hdr) < 5:
+                # worker died (or finished): restart after the item it was on
+                sel.unregister(f)
+                f.close()
+                os.waitpid(st["pid"], 0)
+                del state[fd]
+                if not st["done"]:
+                    cur = st["cur"]
+                    nxt = st.get("lo0", 0)
+                    if cur is not None:
+                        results[cur] = ("crash", None)
+                        nxt = cur + 1
+                    if nxt < st["hi"] and cur is not None:
+                        pid, nfd = spawn(nxt, st["hi"])
+                        nf = os.fdopen(nfd, "rb")
+                        state[nfd] = {"pid": pid, "f": nf, "cur": None, "hi": st["hi"], "done": False}
+                        sel.register(nf, selectors.EVENT_READ, nfd)
+                    elif cur is None:
+                        failure = "a worker died before starting an item"
+                continue
+            tagc, val = struct.unpack("<cI", hdr)
+            if tagc == b"S":
+                st["cur"] = val
+            elif tagc == b"R":
+                blob = read_exact(f, val)
+                results[st["cur"]] = pickle.loads(blob)
+            elif tagc == b"E":
+                st["done"] = True
+    if failure:
+        raise MachineryError(failure)
+    for i, r in enumerate(results):
+        if r is None:
+            raise MachineryError(f"no result for item {i}")
+        kind, val = r
+        if kind == "ok":
+            yield val
+        elif kind == "error":
+            raise MachineryError("replay raised inside the harness:\n" + str(val))
+        else:
+            yield _abnormal({"timeout": "call-did-not-terminate", "crash": "interpreter-crashed",
+                             "recursion": "unbounded-recursion"}[kind], items[i])
 
 
 def exc_family(e: BaseException) -> str:
